@@ -1096,6 +1096,17 @@ def matrix_project(rng, use_ns, shift=0, n_units=12):
             per[loc] = tree
             j += 1
         units[ns] = per
+    if use_ns:
+        # two more namespaces: one whose units have NO string (interpolation-only and numeric values), one with ONE string
+        other = lambda j: {"kind": "other", "json": j}
+        namespaces = namespaces + ["e0", "e1"]
+        units["e0"] = {loc: [("n1", other(3)), ("s2", {"kind": "sub", "sub": [("v0", other("{{ x }}"))]}), ("v0", other("{{ x }}"))]
+                       for loc in locales}
+        units["e1"] = {}
+        for loc in locales:
+            t = gen_text(rng) + "e1" + loc
+            units["e1"][loc] = [("k0", {"kind": "plain", "json": t, "text": t}),
+                                ("s2", {"kind": "sub", "sub": [("v0", other("{{ x }}"))]}), ("v1", other("{{ x }}"))]
     return Project(locales, namespaces, {}, units)
 
 
@@ -1262,3 +1273,40 @@ def structured_project(rng, nloc=3, nns=0, depth=1, mode="rich", inherit=True, a
                 fix_foreign(per[loc])
         units[ns] = per
     return Project(locales, namespaces, inherits, units, config_pos=rng.choice([0, 1, 2, 3]))
+
+
+def sized_project(rng, use_ns):
+    """units whose string table is EMPTY (only interpolation-only values, numbers, booleans: the interpolation builder
+    still calls the strings accessor, so the unit is registered with no string), has exactly ONE string, or several"""
+    def other(j):
+        return {"kind": "other", "json": j}
+
+    def texts(n, tag):
+        return [gen_text(rng) + tag + str(i) for i in range(n)]
+    if use_ns:
+        locales = rng.sample(LOCALE_POOL, 3)
+        namespaces = ["e0", "e1", "full"]
+        units = {}
+        units["e0"] = {loc: [("n1", other(rng.choice([3, True, 2.5]))), ("s2", {"kind": "sub", "sub": [("v0", other("{{ x }}"))]}),
+                             ("v0", other("{{ x }}"))] for loc in locales}
+        units["e1"] = {}
+        for li, loc in enumerate(locales):
+            t = texts(1, "e1" + loc)[0]
+            units["e1"][loc] = [("k0", {"kind": "plain", "json": t, "text": t}), ("n1", other(7)),
+                                ("s2", {"kind": "sub", "sub": [("v0", other("{{ x }}"))]}), ("v1", other("{{ x }}"))]
+        units["full"] = {}
+        for loc in locales:
+            a = texts(4, "f" + loc)
+            units["full"][loc] = [("k0", {"kind": "plain", "json": a[0], "text": a[0]}),
+                                  ("s2", {"kind": "sub", "sub": [("k0", {"kind": "plain", "json": a[1], "text": a[1]}),
+                                                                 ("v0", other("%s{{ x }}" % a[2]))]}),
+                                  ("v1", other("{{ x }}%s" % a[3]))]
+        return Project(locales, namespaces, {}, units)
+    locales = rng.sample(LOCALE_POOL, 4)
+    per = {}
+    for li, loc in enumerate(locales):
+        a = texts(3, "p" + loc)
+        v0 = "{{ x }}" if li < 2 else ("%s{{ x }}" % a[0])
+        sv = "{{ x }}" if li < 3 else ("%s{{ x }}%s" % (a[1], a[2]))
+        per[loc] = [("n1", other(rng.choice([3, True, 2.5]))), ("s2", {"kind": "sub", "sub": [("v0", other(sv))]}), ("v0", other(v0))]
+    return Project(locales, None, {}, {None: per})
